@@ -79,6 +79,9 @@ class DiagramRule(FileRule, BaseModuleSpecifier, RuleApplier):
         dependencies_with_fully_qualified_names = self._add_base_module_path(
             dependencies
         )
+        self._assert_all_components_exist(
+            dependencies_with_fully_qualified_names, evaluable
+        )
         rules = self._convert_to_rules(dependencies_with_fully_qualified_names)
         self._apply_rules(rules, evaluable)
 
@@ -86,6 +89,18 @@ class DiagramRule(FileRule, BaseModuleSpecifier, RuleApplier):
         if self._file_path is None:
             raise ImproperlyConfigured(
                 "A file path pointing to the diagram has to be specified."
+            )
+
+    @classmethod
+    def _assert_all_components_exist(
+        cls, dependencies: ParsedDependencies, evaluable: EvaluableArchitecture
+    ) -> None:
+        # a component without any arrow and without a second component generates no rule, so it would never be looked up
+        known_modules = set(evaluable.modules)
+        missing = sorted(m for m in dependencies.all_modules if m not in known_modules)
+        if missing:
+            raise KeyError(
+                f"Module(s) {', '.join(missing)} of the diagram not found in the architecture."
             )
 
     def _add_base_module_path(
